@@ -198,6 +198,20 @@ def fam_bump(rng):
             "forward_only": False, "x0": 0.0}
 
 
+def fam_pulse(rng):
+    """a slowly decaying linear system hit by a narrow rational pulse: an implicit method walks with large steps and
+    is thrown back by error-test rejections when it meets the pulse (seeded change C13-c: BDF kept a stale
+    factorisation after such a rejection, in one direction of integration only)"""
+    t0 = rng.choice([6.0, 10.0, 13.0])
+    w = rng.choice([3.0, 6.0])
+    amp = rng.choice([2.0, 5.0])
+    u = mul(C(w), sub(T, C(t0)))
+    bump = div(C(amp), mul(add(C(1.0), mul(u, u)), add(C(1.0), mul(u, u))))
+    return {"name": "pulse", "f": [add(mul(C(-0.05), Y(0)), mul(C(0.02), Y(1))), add(mul(C(-0.2), Y(1)), bump)],
+            "y0": [1.0, 0.5], "x0": 0.0, "span": 20.0,
+            "jac": [[C(-0.05), C(0.02)], [C(0.0), C(-0.2)]]}
+
+
 STIFF = [fam_stiff_forced, fam_stiff_linear, fam_robertson, fam_vdp_stiff]
 
 SMOOTH = [fam_linear, fam_sho, fam_logistic, fam_rational, fam_vdp, fam_forced, fam_rot3, fam_zero, fam_const]
@@ -320,6 +334,8 @@ def parse_result(lines):
                 r.setdefault("solm_status", {})[p[1]] = p[2:]
         elif p[0] == "sol":
             r.setdefault("sol", []).append((unhx(p[1]), p[2], [unhx(x) for x in p[3].split(",")] if len(p) > 3 else None))
+        elif p[0] == "evsol":
+            r.setdefault("evsol", {})[int(p[1])] = (int(p[2].split("=")[1]), unhx(p[3].split("=")[1]))
         elif p[0] == "selfsol":
             r["selfsol"] = (int(p[1].split("=")[1]), unhx(p[2].split("=")[1]))
         elif p[0] in ("panic", "error"):
